@@ -38,8 +38,10 @@ ARGS = ["s1", "s2", "s2i", "a222", "a222b", "a12", "a12same", "a2", "a22", "s2np
         "d1", "d1b", "d12", "d12b", "d34", "d12same"]
 # expression templates over three record fields A, B, C (renamed per case, see NAMES)
 EXPRS_MULTI = ["A + B * 2", "A > 1 and B < 3", "abs(A - B)", "(A + B) / 2.0", "A ** 2 - C", "sqrt(A * A) + C", "A if A > B else B",
-               "not (A > 1)", "max(A, B, C)", "A * (B + C) - 1", "floor(A) + ceil(B)", "(A > B) or (C > 0)"]
-EXPRS_SINGLE = ["A + 1", "A * A", "sqrt(A * A) + 1", "A > 1", "abs(A) / 2.0", "A if A > 0 else -A", "floor(A)", "2 ** A"]
+               "not (A > 1)", "max(A, B, C)", "A * (B + C) - 1", "floor(A) + ceil(B)", "(A > B) or (C > 0)",
+               "numpy.hypot(A, B)", "np.sqrt(A * A) + C", "numpy.abs(A) + numpy.minimum(B, C)"]
+EXPRS_SINGLE = ["A + 1", "A * A", "sqrt(A * A) + 1", "A > 1", "abs(A) / 2.0", "A if A > 0 else -A", "floor(A)", "2 ** A",
+                "numpy.abs(A) + 1", "np.floor(A)"]
 # field names of the records; several coincide with names the evaluation namespace already holds (math.e, math.pi, ...):
 # a field of a record must win over them
 NAMES = [("x", "y", "z"), ("x", "y", "z"), ("e", "pt", "eta"), ("pi", "x", "tau"), ("x", "gamma", "e"), ("mass", "inf", "nan")]
@@ -163,7 +165,21 @@ class C17Exec(execs.PyExec):
                     continue
                 f = base
                 for i in perm:
+                    arg = f
+                    snap = (type(arg), getattr(arg, "name", None), getattr(arg, "expr", None))
                     f = wrappers[i](f)
+                    # a wrapper describes a new function object; the one it was applied to stays what it was (it may be in
+                    # use elsewhere: one cached quantity given two names for two members of a collection)
+                    if (type(arg), getattr(arg, "name", None), getattr(arg, "expr", None)) != snap:
+                        msgs.append("%s changed the function object it was applied to: (type, name, expr) %r -> %r"
+                                    % (wnames[i], snap, (type(arg), getattr(arg, "name", None), getattr(arg, "expr", None))))
+                    elif i == 0 and isinstance(arg, UserFcn):
+                        try:
+                            again = named(nm + "2", arg)
+                            if again.name != nm + "2" or getattr(arg, "name", None) is not None:
+                                msgs.append("a second, independent naming of one unnamed wrapper went wrong: %r, %r" % (again, arg))
+                        except ValueError as e:
+                            msgs.append("an unnamed wrapper that was passed to named() once cannot be named independently again: %s" % e)
                 results.append(f)
                 if base_i == 0:
                     self.model_queries.append(("wrap", base_i, [wnames[i] for i in perm], (f.name, isinstance(f, CachedFcn))))
@@ -243,6 +259,7 @@ class C17Exec(execs.PyExec):
             template = re.sub(r"\b([xyz])\b", lambda m: "ABC"["xyz".index(m.group(1))], template)
             names = ["x", "y", "z"]
         ns = dict(math.__dict__)
+        ns["numpy"] = ns["np"] = np   # documented: the full module name and its usual alias are available in expressions
         ref = eval("lambda A, B=0.0, C=0.0: " + template, ns)  # noqa: S307 - the reference function
         expr = rename(template, names)
         u = UserFcn(expr)
